@@ -187,7 +187,8 @@ def check_html(doc, want):
 # documents without any visible text node (the parser sees no element at all in the first five) and comments next to text
 HTML_EDGE = [
     ("", ""), (" ", ""), ("\n\t ", ""), ("<!-- c -->", ""), (" <!-- c --> ", ""), ("<div><!-- c --></div>", ""), ("<br>", ""), ("<p></p>", ""),
-    ("<script>x</script>", ""), ("<p>x<!-- c -->y</p>", "x y"), ("<!-- c -->x", "x"), ("<p>x</p><!-- c -->", "x"),
+    ("<script>x</script>", ""), ("<p>x<!-- c -->y</p>", "x y"), ("<p>a</p>b", "a b"), ("a<p>b</p>", "a b"), ("<body><div>a</div></body>b", "a b"),
+    ("<p>x</p>&nbsp;", "x \xa0"), ("<p>x</p>\x0cy", "x \x0cy"), ("<div>a</div>b<div>c</div>", "a b c"), ("<!-- c -->x", "x"), ("<p>x</p><!-- c -->", "x"),
 ]
 
 
